@@ -13,6 +13,7 @@ import (
 	"github.com/btcsuite/btcd/chaincfg"
 	sdkhd "github.com/cosmos/cosmos-sdk/crypto/hd"
 	"github.com/cosmos/cosmos-sdk/crypto/keyring"
+	sdk "github.com/cosmos/cosmos-sdk/types"
 	bip39 "github.com/cosmos/go-bip39"
 	"github.com/ethereum/go-ethereum/common"
 	tsbip39 "github.com/tyler-smith/go-bip39"
@@ -23,6 +24,7 @@ import (
 
 	"github.com/EscanBE/evermint/v12/app/params"
 	evhd "github.com/EscanBE/evermint/v12/crypto/hd"
+	evertypes "github.com/EscanBE/evermint/v12/types"
 
 	"verifharness/vh"
 )
@@ -560,6 +562,21 @@ func (e *hdEnv) vectors() {
 		}
 		e.checkDerivation(hdCase{label: label, origin: "vector", mnemonic: v.mnemonic, words: len(strings.Fields(v.mnemonic)), passCls: "empty", comps: parsePath(v.path), keyring: true})
 		run.Nontrivial("hd|vector|wallet|" + v.name)
+	}
+	// the defaults a user gets without naming a path: BIP-44 coin type 60, m/44'/60'/0'/0/0 (what `keys add` uses)
+	if run.WantCase("vector/default-path") {
+		run.Eval(1)
+		cfg := sdk.GetConfig()
+		full := sdkhd.CreateHDPath(cfg.GetCoinType(), 0, 0).String()
+		v := walletVectors[0]
+		got, err := evDerive(v.mnemonic, "", evertypes.BIP44HDPath)
+		got2, err2 := evDerive(v.mnemonic, "", full)
+		if evertypes.BIP44HDPath != "m/44'/60'/0'/0/0" || cfg.GetCoinType() != 60 || err != nil || err2 != nil || hex.EncodeToString(got) != v.priv || hex.EncodeToString(got2) != v.priv {
+			viol(run, "hd-vector-mismatch:default-path", "vector/default-path", map[string]any{"BIP44HDPath": evertypes.BIP44HDPath, "coin_type": cfg.GetCoinType(), "keyring_default_path": full,
+				"mnemonic": v.mnemonic, "expected_key": v.priv, "observed_key": hex.EncodeToString(got), "observed_key_keyring_path": hex.EncodeToString(got2), "errors": fmt.Sprint(err, err2)})
+		} else {
+			run.Count("hd.vector-ok:default-path", 1)
+		}
 	}
 	// BIP-39 asks for NFKD normalisation of the passphrase; measured, not asserted (the property
 	// quantifies over mnemonics and paths; passphrases in the generated cases are already normalised).
